@@ -6,8 +6,10 @@ CONSTANTS Tok = {}
           LenUri = 0
           LenName = 0
           LenNameW = 0
+          LenSess = 0
+          LenOps = 0
           Devs = @DEVS@
-INVARIANTS Idempotent NoDots PrintedIsCanonical SameRootCid MutableHasNoCid UriEqualsPath TrailingSlashKept BinaryLaws
+INVARIANTS Idempotent NoDots PrintedIsCanonical SameRootCid MutableHasNoCid UriEqualsPath TrailingSlashKept BinaryLaws ValueSemantics DerivedLaws NameValueLaws
 CONSTRAINT TraceConstraint
 POSTCONDITION TracePost
 CHECK_DEADLOCK FALSE
